@@ -1154,7 +1154,13 @@ class SetPartition(SetIndex):
             set_name,
             self.frame._meta.columns.dtype,
             kwargs,
-            self.user_divisions,
+            # Carry the divisions along: they must not only live in a cache of
+            # the process (and session) that lowered the expression
+            (
+                self.user_divisions
+                if self.user_divisions is not None
+                else tuple(self._divisions())
+            ),
         )
         return SortIndexBlockwise(index_set)
 
